@@ -1,4 +1,5 @@
 import DFV.Lemmas.C01
+import DFV.Lemmas.Rounding
 /-!
 # C01 — mesh cells tile the region; index ↔ coordinate maps are mutually inverse
 
@@ -405,5 +406,32 @@ theorem indices_entry (ns : List Nat) (k : Nat) (hk : k < natProd ns) :
   rw [List.getD_eq_getElem?_getD, List.getElem?_map, List.getElem?_range hk]
   simp only [Option.map_some, Option.getD_some]
   exact flatF_unflatF ns k hk
+
+/-! ## rounded arithmetic (section 4 of DESIGN.md) -/
+
+/-- Round trip under rounding: if `10·u·(|pmin|/c + i + ½) < 1` then the computed quotient of the
+computed centre of cell `i` still floors to `i`.  (For binary64, `u = 2^-53`, this covers cells up
+to ~10^14 cells away from the origin; beyond that the real code indeed loses the round trip.) -/
+theorem roundtrip_fl (R : Rounding) (pmin c : Rat) (hc : 0 < c) (i : Nat)
+    (hsmall : 10 * R.u * (|pmin| / c + ((i : Rat) + 1/2)) < 1) :
+    (quotFl R pmin c (centreFl R pmin c i)).floor = (i : Int) := by
+  have hi0 : (0:Rat) ≤ (i : Rat) := Nat.cast_nonneg i
+  have key := fl_core R.u ((i : Rat) + 1/2) (|pmin| / c) c (R.fl (((i : Rat) + 1/2) * c))
+    (centreFl R pmin c i) (R.fl (centreFl R pmin c i - pmin)) (quotFl R pmin c (centreFl R pmin c i)) pmin
+    hc R.u_nonneg R.u_small (by linarith) (div_nonneg (abs_nonneg _) hc.le) (by field_simp)
+    (R.err _) (R.err _) (R.err _) (R.err _) hsmall
+  rw [abs_lt] at key
+  apply rat_floor_eq
+  · push_cast; linarith
+  · push_cast; linarith
+
+/-- the hypotheses are satisfiable: exact arithmetic is a rounding with `u = 0` … -/
+def Rounding.exact : Rounding := ⟨id, 0, le_refl _, by norm_num, by intro x; simp⟩
+
+/-- … and then the theorem gives the exact round trip for every cell of every mesh -/
+example (pmin c : Rat) (hc : 0 < c) (i : Nat) :
+    (quotFl Rounding.exact pmin c (centreFl Rounding.exact pmin c i)).floor = (i : Int) :=
+  roundtrip_fl Rounding.exact pmin c hc i (by simp [Rounding.exact])
+
 
 end DFV.C01
